@@ -59,6 +59,14 @@ PARAMS = [
     (1e300, math.inf),
 ]
 K = ErrorClass.TRANSIENT
+_ALL_CLASSES = list(ErrorClass)
+_rot = [0]
+
+
+def any_class():
+    """The strategies' envelopes hold whatever class the failure has: the class rotates from call to call."""
+    _rot[0] += 1
+    return _ALL_CLASSES[_rot[0] % len(_ALL_CLASSES)]
 
 
 FALLBACK_SHAPES = ("ctx-lambda", "legacy", "legacy-method", "ctx-two-knobs", "ctx-one-knob", "object", "method", "partial", "renormalised", "renormalised-rao", "adaptive-object")
@@ -255,10 +263,12 @@ def _jitter_case(ctx, viol, draws, name, f, fn, g, base, mx, attempt, prev, mode
     mag = "<=64" if attempt <= 64 else "<=1023" if attempt <= 1023 else "<=2048" if attempt <= 2048 else "<=2^64" if attempt <= 2**64 else ">2^64"
     ctx.cnt[f"attempt_magnitude:{mag}"] += 1
     try:
+        kk = any_class()
+        case["class"] = kk.name
         if i & 1:
-            r = f(attempt, K, prev)
+            r = f(attempt, kk, prev)
         else:
-            r = fn(BackoffContext(attempt=attempt, classification=Classification(klass=K), prev_sleep_s=prev, remaining_s=None, cause="exception"))
+            r = fn(BackoffContext(attempt=attempt, classification=Classification(klass=kk), prev_sleep_s=prev, remaining_s=None, cause="exception"))
     except BaseException as x:  # noqa: BLE001
         over = "overflow-at-large-attempt" if isinstance(x, OverflowError) else "strategy-raised:" + type(x).__name__
         viol(over, f"{name}(base_s={base!r}, max_s={mx!r}) raised {type(x).__name__}: {x} for attempt={attempt}, prev={prev!r}", case)
@@ -300,7 +310,9 @@ def _rao_case(ctx, viol, draws, hint, j, rem, fb, mode, shape="ctx-lambda", judg
     ctx.cnt["fallback_shape:" + shape] += 1
     try:
         s = retry_after_or(mk_fallback(shape, lambda: fb), jitter_s=j)
-        r = s(BackoffContext(attempt=1, classification=Classification(klass=ErrorClass.RATE_LIMIT, retry_after_s=hint), prev_sleep_s=None, remaining_s=rem, cause="exception"))
+        kk = any_class()  # a hint is a hint on whatever class of failure carries it (a 202 being polled, a 409, a 503, a 429)
+        case["class"] = kk.name
+        r = s(BackoffContext(attempt=1, classification=Classification(klass=kk, retry_after_s=hint), prev_sleep_s=None, remaining_s=rem, cause="exception"))
     except BaseException as x:  # noqa: BLE001
         viol("strategy-raised:" + type(x).__name__, f"retry_after_or raised {type(x).__name__}: {x} for {case}", case)
         return
